@@ -4,7 +4,7 @@ entries a quick run takes; the curated entries are always first."""
 import json, os, random
 
 _HERE = os.path.dirname(os.path.abspath(__file__))
-CURATED = 70
+CURATED = 76
 
 
 def all_lexemes():
